@@ -227,7 +227,8 @@ Definition C13_genstep_pure_stmt : Prop :=
   forall sc m e pool i x k,
     fst (fst (run_op sc m (e, pool) (OGen i x k))) = e
     /\ fst (fst (run_op sc m (e, pool) (OGoal i))) = e
-    /\ fst (fst (run_op sc m (e, pool) OMask)) = e.
+    /\ fst (fst (run_op sc m (e, pool) OMask)) = e
+    /\ fst (fst (run_op sc m (e, pool) OInit)) = e.
 
 Definition C13_step_is_genstep_stmt : Prop :=
   forall sc m e a k,
